@@ -101,7 +101,8 @@ type CertOpts struct {
 	// AKIForm selects the authorityKeyIdentifier of an issued certificate: "" = keyIdentifier only
 	// (what Go emits), "long" = keyIdentifier + authorityCertIssuer + authorityCertSerialNumber (OpenSSL
 	// keyid,issuer:always), "issuer-serial" = the latter two only, "uri-serial" = a URI as
-	// authorityCertIssuer + serial. NoAKI omits the extension.
+	// authorityCertIssuer + serial, "keyid-mismatch" = a keyIdentifier no certificate has. NoAKI omits
+	// the extension.
 	AKIForm   string
 	NotBefore time.Time
 	NotAfter  time.Time
@@ -231,6 +232,10 @@ func AKIValue(form string, issuer *x509.Certificate) []byte {
 		serial = append([]byte{0}, serial...)
 	}
 	var parts []byte
+	if form == "keyid-mismatch" {
+		// a key identifier that no certificate carries (the CA was re-issued with another identifier)
+		return tlv(0x30, tlv(0x80, []byte("no-such-key-identifier")))
+	}
 	if form == "long" {
 		parts = append(parts, tlv(0x80, issuer.SubjectKeyId)...)
 	}
